@@ -190,9 +190,15 @@ Print Assumptions generated_full_referential_integrity.
 Theorem generated_late_failures_only_known :
   subset_str (late_fns all_sigs)
              ["create_junction"; "create_junctions"; "create_pipe"; "create_pipe_from_parameters";
-              "create_pipes"; "create_pipes_from_parameters"; "create_pressure_controls"] = true.
+              "create_pipes"; "create_pipes_from_parameters"] = true.
 Proof. vm_compute. reflexivity. Qed.
 Print Assumptions generated_late_failures_only_known.
+
+(* create_junctions (the bulk function without a per-row list) compares the length of a passed index with
+   nr_junctions before writing - the length clause of rejects_bulk applies to it as to the other bulk functions *)
+Theorem generated_junctions_index_length_checked : In "create_junctions" index_len_checked.
+Proof. vm_compute. auto. Qed.
+Print Assumptions generated_junctions_index_length_checked.
 
 (* 6. (defaults part) twins (bulk / single, std-type / parameters) have the same literal defaults *)
 Theorem generated_twin_defaults_equal : twin_diffs (twins ++ std_param_twins) = [].
